@@ -8,7 +8,7 @@ DURS = [0, 0.5, 1, 2, 3, 7.25]
 GLOB_GRID = [0.0, 0.25, 0.5, 1.0, 2.0, 3.0, 8.0]
 REG_KEYS = ["ra", "rb", "rc"]
 REP_KEYS = ["na", "nb"]
-TAGS = ["", "a", "b", "c"]
+TAGS = ["", "a", "b", "c", "A", "a ", "Final", " b"]      # tags are compared as written: case and blanks matter
 
 ZERO_KINDS = ["TwoQubitVirtualPhase", "CoordinateShiftOperation", "DetectorOperation", "LogicalObservableOperation"]
 CFG_DUR_KINDS = ["Wait", "SingleQubitOperation", "TwoQubitOperation", "VirtualVacant", "VirtualEmpty", "VirtualTwoQubitVacant"]
